@@ -135,6 +135,10 @@ func (e *Engine) canon(st *State, x ast.Expr) keyInfo {
 		var out keyInfo
 		var parts []string
 		name := ""
+		if callee == nil || !e.pureCallee(callee) {
+			// the result of an impure (or unknown) call is not a stable atom: `for scanner.Scan()` must be re-evaluated
+			return keyInfo{}
+		}
 		if callee != nil {
 			name = callee.FullName()
 			if sel, ok := ast.Unparen(x.Fun).(*ast.SelectorExpr); ok {
@@ -258,4 +262,25 @@ func dedupeFields(in []*types.Var) []*types.Var {
 	}
 	sort.Slice(out, func(i, j int) bool { return out[i].Pos() < out[j].Pos() })
 	return out
+}
+
+// pureCallee reports whether a call result may be remembered as a fact: module functions that write
+// nothing (transitively), and package-level functions of a few value-only standard packages.
+func (e *Engine) pureCallee(fn *types.Func) bool {
+	sums := e.P.Summaries()
+	w, ok := sums.Writes[fn]
+	if !ok {
+		w, ok = sums.Writes[fn.Origin()]
+	}
+	if ok {
+		return !w.All && !w.Index && len(w.Fields) == 0 && len(w.Globals) == 0
+	}
+	if fn.Pkg() == nil || fn.Type().(*types.Signature).Recv() != nil {
+		return false
+	}
+	switch fn.Pkg().Path() {
+	case "strings", "unicode", "unicode/utf8", "strconv", "errors":
+		return true
+	}
+	return false
 }
